@@ -271,6 +271,15 @@ func symBinop0(op token.Token, x, y value) value {
 	ty, ky := toTerm(y)
 	w := kindWidth(kx)
 	sg := kindSigned(kx)
+	// syntactically identical operands: decided without the solver
+	if tx == ty || (tx.Op != "const" && ty.Op != "const" && tx.String() == ty.String()) {
+		switch op {
+		case token.EQL, token.LEQ, token.GEQ:
+			return true
+		case token.NEQ, token.LSS, token.GTR:
+			return false
+		}
+	}
 	if kx == types.Bool {
 		switch op {
 		case token.EQL:
@@ -369,6 +378,9 @@ func symEq(t types.Type, x, y value) *Term {
 	if isSym(x) || isSym(y) {
 		tx, _ := toTerm(x)
 		ty, _ := toTerm(y)
+		if tx == ty || (tx.Op != "const" && ty.Op != "const" && tx.String() == ty.String()) {
+			return mkBool(true)
+		}
 		return mk("=", 0, tx, ty)
 	}
 	return mkBool(equals(t, x, y))
@@ -474,6 +486,7 @@ type Explorer struct {
 	Nontrivial int // paths that reached at least one assertion
 	qcache     map[string]qres
 	CacheHits  int
+	InitWall   time.Duration
 }
 
 func (e *Explorer) ExecutedList() []string { return sortedKeys(e.executed) }
@@ -867,6 +880,9 @@ func (e *Explorer) assert(c value, label string) {
 	ok, model := e.feasibleModel(mkNot(t))
 	if ok {
 		e.Viol = append(e.Viol, Violation{Label: "assert:" + label, Model: model, Path: append([]int{}, e.taken...), PC: e.pcStrings()})
+	}
+	if !ok {
+		return // the assertion is implied by the path condition: nothing to add, nothing more to ask
 	}
 	// continue under the assertion
 	if ok2, _ := e.feasible(t); !ok2 {
